@@ -9,7 +9,7 @@ RULE = ("for a valid reference encoding of every one of the 40 typed variants (p
         "of 0..=12 bytes over a small alphabet for the peeks; bounded-exhaustive pointer graphs; headers with maximal counts; "
         "seeded random bytes. non-trivial = the input is accepted or rejected after at least the header was read; "
         "distinct = distinct canonical outputs")
-CASE_TIMEOUT = 60
+CASE_TIMEOUT = 600
 RELEASE_TOO = True
 CANNOT_EXHIBIT = ["wall-clock time: only a per-case watchdog (HANG) is applied; the linear-time sentence is covered by the proved "
                   "step bound of Name::parse and the known finding F22 (quadratic pointer chains across names)",
@@ -18,7 +18,7 @@ CANNOT_EXHIBIT = ["wall-clock time: only a per-case watchdog (HANG) is applied; 
 
 def cases(rng, tier):
     out = []
-    per = 1 if tier == "quick" else 6
+    per = 4 if tier == "quick" else 12
     # every typed variant: one record per message, systematic malformation
     for tname in dns.TYPED + ["U", "E"]:
         for k in range(per):
@@ -28,6 +28,11 @@ def cases(rng, tier):
                 rr = {"name": [b"x", b"example", b"com"], "class": 1, "ttl": 5, "cf": False, "rdata": rd}
             else:
                 rr = dns.gen_rr(rng, shared, tname)
+                if tname == "IPSECKEY":
+                    gw = k % 4
+                    vals = [dns.gen_field(rng, f, shared) for f in dns.ipseckey_schema(gw)]
+                    vals[1] = ("I", gw)
+                    rr["rdata"] = ("T", "IPSECKEY", vals)
             p = {"id": 7, "opcode": 0, "rcode": 0, "flags": 0x8000, "opt": None,
                  "qs": [{"name": [b"q", b"example", b"com"], "qtype": 255, "qclass": 1, "uni": False}],
                  "ans": [rr], "nss": [], "adds": [dns.gen_rr(rng, shared, "A")]}
@@ -36,7 +41,7 @@ def cases(rng, tier):
             for comp in (0, 3):
                 b, marks = dns.encode_marked(p, rng, comp)
                 out.append("PARSEM " + b.hex())
-                for m in dns.malformations(b, marks, rng, budget=None if tier == "thorough" else 400):
+                for m in dns.malformations(b, marks, rng, budget=None if tier == "thorough" else 300):
                     out.append("PARSEM " + (m.hex() or "-"))
     # headers with hostile counts
     for cnt in ([0xFFFF] * 4, [1, 0, 0, 0], [0, 0xFFFF, 0, 0], [0, 0, 0, 0xFFFF], [0x100, 0x100, 0x100, 0x100]):
@@ -109,8 +114,8 @@ def oracle(case, out):
     if case.startswith("PARSEM") and " peak=" in out:
         n = 0 if case.split()[1] == "-" else len(case.split()[1]) // 2
         peak = int(out.split(" peak=")[1], 16)
-        # modest linear bound: every entry needs >= 5 input bytes and costs at most a few hundred bytes of bookkeeping
-        bound = 4096 + 160 * n
+        # modest linear bound: an entry needs >= 5 input bytes; a 2-byte pointer can expand to a 127-label name (~3 KB of labels), so ~600 bytes per input byte is reachable by honest compression
+        bound = 4096 + 1024 * n
         if peak > bound:
             return "peak heap %d bytes for a %d-byte input exceeds the linear bound %d" % (peak, n, bound)
     return None
